@@ -210,14 +210,20 @@ func (s *store) persistBlobSize(key string, sizeBytes uint64) error {
 	return nil
 }
 
+// fits reports whether `space` more bytes can be reserved without exceeding the capacity.
+// It must not compute s.size+space: the sum of two uint64 may wrap around.
+func (s *store) fits(space uint64) bool {
+	return space <= s.capacity && s.size <= s.capacity-space
+}
+
 func (s *store) ensureFreeSpace(space uint64) error {
-	if s.size+space <= s.capacity {
+	if s.fits(space) {
 		return nil
 	}
 
 	// TODO - benchmark and consider whether async eviction makes more sense.
 	startTime := time.Now()
-	for s.size+space > s.capacity {
+	for !s.fits(space) {
 		if s.evictQueue.Len() == 0 {
 			s.log.With(
 				"unevictable_bytes", s.size,
